@@ -2,12 +2,14 @@ module verif
 
 go 1.18
 
-require github.com/crate-crypto/go-ipa v0.0.0
+require (
+	github.com/consensys/gnark-crypto v0.13.0
+	github.com/crate-crypto/go-ipa v0.0.0
+)
 
 require (
 	github.com/bits-and-blooms/bitset v1.7.0 // indirect
 	github.com/consensys/bavard v0.1.13 // indirect
-	github.com/consensys/gnark-crypto v0.13.0 // indirect
 	github.com/mmcloughlin/addchain v0.4.0 // indirect
 	golang.org/x/sync v0.1.0 // indirect
 	golang.org/x/sys v0.15.0 // indirect
